@@ -28,7 +28,7 @@ def run(ck):
                        "C05's formula is demanded there, C15's equivariance is not",
                        "penalised objective for means-only MAP: sum_i log p(x_i) - sum_cj r (mu_cj - mu0_cj)^2 / (2 var_cj)"]
     smp = gm.samples(3)
-    smp = rng.sample(smp, 30 if quick else 300)
+    smp = rng.sample(smp, 30 if quick else 120)
     recs = gm.model_run(ck, "mstep-map", smp, ["map"], coverage=not quick)
     ck.exhaustive = True
     devrecs = gm.model_run(ck, "as-implemented:MAP_VAR_PRIOR_MEAN_NOT_SQUARED", smp, ["map"],
@@ -36,8 +36,9 @@ def run(ck):
     gm.model_run(ck, "deviation:MAP_VAR_PRIOR_MEAN_NOT_SQUARED", smp[:30], ["map"], dev=["MAP_VAR_PRIOR_MEAN_NOT_SQUARED"],
                  expect_violation=True, export=False, invariants=["MAPIsBlend", "MAPFixedAlpha", "NoEvidenceKeepsPrior"])
     asimpl = {gm.scenario_key(r): r for r in devrecs}
-    if quick and len(recs) > 3000:
-        recs = rng.sample(recs, 3000)
+    limit = 3000 if quick else 20000
+    if len(recs) > limit:
+        recs = rng.sample(recs, limit)
     for rec in recs:
         got = gm.run_real(em, rec)
         bad = gm.compare(rec, got)
